@@ -87,11 +87,19 @@ class Driver(object):
                 return closures[4](*args, **ctx)
         self.host = Host()
         self._closures = closures
+
+        class CallableObject(object):
+            def __call__(_obj, *args, **ctx):
+                return closures[0](*args, **ctx)
+        import functools
+        self._obj0 = CallableObject()
+        self._partial2 = functools.partial(closures[2])
         self.current = []
 
     @property
     def cbs(self):
-        return [self._closures[0], self._closures[1], self._closures[2], self.host.m3, self.host.m4]
+        # callback 0 is a callable object (no __name__), 2 a functools.partial, 3 and 4 bound methods fetched anew each time; callback 1 returns False
+        return [self._obj0, self._closures[1], self._partial2, self.host.m3, self.host.m4]
 
     def ident(self, cb):
         for i, c in enumerate(self.cbs):
@@ -111,6 +119,7 @@ class Driver(object):
             if n < len(script):
                 for act in script[n]:
                     self.do(act, nested=True)
+            return False if i == 1 else (0 if i == 2 else None)      # what a listener returns is nobody's business
         return cb
 
     def do(self, act, nested=False):
